@@ -38,7 +38,8 @@ def generate(seed, tier="quick"):
         N = cfg["libraries"][li]["n"]
         op = {"id": oid, "op": kind, "data": 0, "lib": li, "source": src, "in_memory": False, "joker": rnd.choice(["main", "fresh"]), "role": "target"}
         if src == "file" and rnd.random() < 0.5:
-            op["alias"] = "shared"  # one file name, rewritten with the other library (other row count) in between
+            op["alias"] = "shared"
+            op["alias_mode"] = rnd.choice(["overwrite", "overwrite", "append-overwrite"])  # one file name, rewritten with the other library (other row count) in between
         if op["joker"] == "fresh":
             op["pool"] = rnd.choice([{"kind": "serial"}, {"kind": "sim", "size": rnd.randint(1, 7)}])
         nb = rnd.choice([None, 1, 2, 3, N - 1 if N > 1 else 1, N, N + 1, N + rnd.randint(2, 9), rnd.randint(1, max(1, N))])
